@@ -30,7 +30,7 @@ NONE = "__none__"
 STRICT = ParserConfig(fail_on_unknown_properties=True, fail_on_unknown_attributes=True, fail_on_converter_warnings=True)
 
 # (a "decimal" member is a NUMBER: some of its values are whole - the field then has two inferable numeric types)
-CANON = {"int": ["1", "-7"], "boolean": ["true", "false"], "decimal": ["1.5", "-0.25", "2"], "date": ["2020-02-29", "1999-12-31"], "string": ["t", "a b"]}
+CANON = {"int": ["1", "-7"], "boolean": ["true", "false"], "decimal": ["1.5", "-0.25", "2"], "date": ["2020-02-29", "1999-12-31"], "string": ["t", "a b", "01234", "007", "+5", "1E5", "1.", "0x1F"]}     # strings that merely LOOK numeric are strings (no strict test accepts them)
 
 
 def canon_text(o, idx):
